@@ -210,6 +210,8 @@ class Sim:
             if self.with_seg:
                 labels = int(self.tracks.segmentation.max())
             return max(list(g.nodes) + [labels, 0]) + 1 + (k % 5)
+        if cls == "id":
+            return k
         classes = classes or self.node_classes()
         c = classes.get(cls) or classes["any"]
         if not c:
@@ -259,6 +261,27 @@ class Sim:
     # ---------------------------------------------------------------- step
     def step(self, op: dict):
         self.step_no += 1
+        if op["op"] == "all_pairs":
+            # systematic layer of C03/C11 (thorough): offer every ordered node pair of the
+            # current state as an edge, force off and on; an accepted edge is undone so the
+            # sweep continues from the same state
+            self.step_no -= 1
+            out = {"cls": "skipped"}
+            nodes = sorted(self.tracks.graph.nodes)[: op.get("cap", 10)]
+            for force in (False, True):
+                for u in nodes:
+                    for v in nodes:
+                        if not self.structural_ok():
+                            return out
+                        out = self.step({"op": "add_edge", "u": ["id", u], "v": ["id", v], "mode": "asis", "force": force, "reinvert": False})
+                        if self.violations:
+                            return out
+                        if out.get("cls") == "accepted":
+                            self.step({"op": "undo"})
+                            if self.violations:
+                                return out
+            self.count("c03_all_pairs_sweeps")
+            return out
         if op["op"] == "first_accepted":
             # systematic layer: execute candidate edits until one is accepted
             self.step_no -= 1
@@ -610,6 +633,8 @@ class Sim:
                 try:
                     r = tr.undo() if kind == "undo" else tr.redo()
                 except Exception as e:  # noqa: BLE001
+                    if _from_dependency(e):
+                        self.guard("dependency_abort", f"drain {kind}: {type(e).__name__}: {str(e)[:100]}")
                     self.violate("C02", "C02.timeline.drain", f"{kind}() raised {type(e).__name__}: {e} during drain", {"op": "drain"})
                     return
                 if not r:
